@@ -515,12 +515,12 @@ def c15(tier):
 _progs = {}
 
 
-def gen_programs(tier, which=("file", "stmts", "types", "routine", "anon")):
+def gen_programs(tier, which=("file", "stmts", "types", "routine", "anon", "carry")):
     """TLC derives programs from Grammar.tla (simulation of Gen.tla); returns the path of the ndjson file."""
     key = (tier, tuple(which))
     if key in _progs:
         return _progs[key]
-    num = Q(tier, {"file": 500, "stmts": 700, "types": 300, "routine": 300, "anon": 400}, {"file": 20000, "stmts": 30000, "types": 12000, "routine": 12000, "anon": 6000})
+    num = Q(tier, {"file": 500, "stmts": 700, "types": 300, "routine": 300, "anon": 400, "carry": 300}, {"file": 20000, "stmts": 30000, "types": 12000, "routine": 12000, "anon": 6000, "carry": 4000})
     progs, seen = [], set()
     cov = {}
     for w in which:
